@@ -214,7 +214,7 @@ def ref_iban(x, check_country=True):
     cc = n[:2]
     if not alld(n[2:4]):
         return rej('check-digits-not-digits')
-    if mod97(n[4:] + n[:4]) != 1:
+    if mod97(n[4:] + n[:4]) != 1 or n[2:4] in ('00', '01', '99'):
         return rej('checksum')
     reg = iban_registry()
     if cc not in reg:
@@ -247,6 +247,8 @@ def ref_iso11649(x):
         return rej('check-digits-not-digits')
     if not allan(n):
         return rej('format')
+    if n[2:4] in ('00', '01', '99'):
+        return rej('check-digits-out-of-range')
     return ok(n) if mod97(n[4:] + n[:4]) == 1 else rej('checksum')
 
 
@@ -268,6 +270,8 @@ def ref_lei(x):
         return rej('length')
     if not allan(n[:18]) or not alld(n[18:]):
         return rej('format')
+    if n[18:] in ('00', '01', '99'):
+        return rej('check-digits-out-of-range')
     return ok(n) if mod97(n) == 1 else rej('checksum')
 
 
